@@ -46,7 +46,7 @@ def do_solve(req):
 
     def on_model(m, step):
         syms = m.symbols(atoms=True) if atoms else m.symbols(shown=True)
-        out['models'].append([step, sorted(sym_to_tuple(s) for s in syms)])
+        out['models'].append([step, sorted((sym_to_tuple(s) for s in syms), key=lambda x: (x[0], x[1], -1 if x[2] is None else x[2], x[3]))])
     try:
         telingo.imain(prg, fs, parts, on_model, imin=req.get('imin', 0), imax=imax, istop=req.get('istop', 'SAT'))
     except Exception as e:  # noqa
